@@ -34,6 +34,9 @@ META = {
     'technique': 'static analysis: exception-escape summaries over a resolved call graph, must-fact guards for implicit raisers, reaching definitions',
 }
 
+
+META['explanation'] += ' Rounds 4-5: ' + 'R4 (= C13.R2) no exception can leave the value recognisers.'
+
 ENTRIES = ['x12n_document:x12n_document', 'x12file:X12Reader.__init__', 'x12file:X12Reader.__iter__', 'x12file:X12Reader.cleanup',
            'x12context:X12ContextReader.__init__', 'x12context:X12ContextReader.iter_segments']
 
